@@ -3,7 +3,13 @@
 package match
 
 var verifHarnesses = map[string]func(){
-	"VerifC01":         VerifC01,
-	"VerifC03":         VerifC03,
-	"VerifOrderLemmas": VerifOrderLemmas,
+	"VerifC01":             VerifC01,
+	"VerifC02Maps":         VerifC02Maps,
+	"VerifC02PropVars":     VerifC02PropVars,
+	"VerifC02FlatArrays":   VerifC02FlatArrays,
+	"VerifC02StructArrays": VerifC02StructArrays,
+	"VerifC02Mixed":        VerifC02Mixed,
+	"VerifC02Prebound":     VerifC02Prebound,
+	"VerifC03":             VerifC03,
+	"VerifOrderLemmas":     VerifOrderLemmas,
 }
